@@ -6,6 +6,7 @@ import dns.exception
 import dns.flags
 import dns.edns
 import dns.message
+import dns.renderer
 import dns.name
 import dns.opcode
 import dns.tsig
@@ -28,7 +29,7 @@ ASSUMPTIONS = [
     "reference wire walker and name decoder; RDATA decoded with dns.rdata.from_wire (C02)",
     "maximality of the kept prefix is not demanded; TooBig under prefer_truncation is legitimate only when header+question-less OPT/padding/TSIG alone exceed the limit",
 ]
-REQUIRED = ["mon.padding_option_already_present", "mon.render_under_limit", "mon.prefix_check", "mon.tc_rule", "mon.padding_multiple", "mon.toobig_legitimacy", "mon.truncated_outcomes"]
+REQUIRED = ["mon.direct_renderer", "mon.padding_option_already_present", "mon.render_under_limit", "mon.prefix_check", "mon.tc_rule", "mon.padding_multiple", "mon.toobig_legitimacy", "mon.truncated_outcomes"]
 BUDGET = {"quick": 32.0, "thorough": 480.0}
 
 
@@ -87,6 +88,53 @@ def render(m, L, prefer):
     return m.to_wire(max_size=L, prefer_truncation=prefer, want_shuffle=False)
 
 
+def direct_renderer_drill(ctx, rng, m, L):
+    """dns.renderer.Renderer used directly, as its documentation shows, with a size limit: every record set is offered through
+    add_rrset or the (name, rdataset) spelling add_rdataset; one that raises TooBig is skipped and the next is offered.  What
+    comes out must be within the limit, walkable, and its header counts must equal the records that are really there."""
+    ctx.count("evaluations")
+    ctx.count("mon.direct_renderer")
+    case = {"kind": "direct-renderer", "L": L}
+    r = dns.renderer.Renderer(id=m.id, flags=int(m.flags), max_size=L, origin=m.origin)
+    kept = [0, 0, 0, 0]
+    refused = 0
+    try:
+        for q in m.question:
+            try:
+                r.add_question(q.name, q.rdtype, q.rdclass)
+                kept[0] += 1
+            except dns.exception.TooBig:
+                refused += 1
+        for si, sec in ((1, m.answer), (2, m.authority), (3, m.additional)):
+            for rr in sec:
+                if getattr(rr, "deleting", None) is not None or len(rr) == 0:
+                    continue
+                try:
+                    if rng.random() < 0.5:
+                        r.add_rrset(si, rr, want_shuffle=False)
+                    else:
+                        r.add_rdataset(si, rr.name, rr.to_rdataset(), want_shuffle=False)
+                    kept[si] += len(rr)
+                except dns.exception.TooBig:
+                    refused += 1
+        r.write_header()
+        w = r.get_wire()
+    except Exception as e:
+        ctx.violation("direct-renderer-raised:" + core.exc_sig(e), repr(e), case)
+        return
+    ctx.seen(("direct", min(refused, 3), L < 600))
+    if len(w) > L:
+        ctx.violation("direct-renderer-exceeds-limit", f"{len(w)} > {L}", case)
+    try:
+        walk = WW.walk(w)
+    except WW.WalkError as e:
+        ctx.violation("direct-renderer-output-not-walkable", f"L={L} refused={refused}: {e}", dict(case, wire=w))
+        return
+    present = (len(walk["questions"]),) + tuple(len(x) for x in walk["records"])
+    if tuple(walk["counts"]) != present or walk["end"] != len(w) or tuple(kept) != present:
+        ctx.violation("direct-renderer-header-counts-differ-from-records-present", f"L={L} refused={refused}: header {walk['counts']} records kept {kept} walker end {walk['end']} len {len(w)}", dict(case, wire=w))
+
+
 def check_limit(ctx, spy, m, info, key, L, prefer, full_len, min_len, want_sets, collide):
     ctx.count("evaluations")
     ctx.count("mon.render_under_limit")
@@ -103,6 +151,10 @@ def check_limit(ctx, spy, m, info, key, L, prefer, full_len, min_len, want_sets,
         ctx.violation("render-foreign:" + core.exc_sig(e), f"L={L} prefer={prefer}: {e!r}", case)
         return
     tag = f"{'tsig' if key is not None else 'notsig'}:{'pad' if m.pad else 'nopad'}"
+    if int(m.flags) != info["flags0"]:
+        # rendering is an observation of the message: a truncated rendering must not leave TC (or anything) behind in the object
+        ctx.violation(f"rendering-changed-the-message-flags:{tag}", f"L={L} prefer={prefer}: {info['flags0']:#x} -> {int(m.flags):#x}", case)
+        m.flags = dns.flags.Flag(info["flags0"])
     if w is None:
         ctx.count("mon.toobig_legitimacy")
         # the TSIG reserve is estimated with an uncompressed key name, so a message whose final size is within
@@ -156,7 +208,7 @@ def check_limit(ctx, spy, m, info, key, L, prefer, full_len, min_len, want_sets,
         ctx.count("mon.truncated_outcomes")
     # TC rule
     ctx.count("mon.tc_rule")
-    tc_in = bool(int(m.flags) & dns.flags.TC)
+    tc_in = bool(info["flags0"] & dns.flags.TC)  # the flags the message had before anything was rendered
     tc_out = bool(walk["flags"] & 0x0200)
     missing_before_additional = any(r[0] < 3 for r in missing)
     if tc_out != (tc_in or missing_before_additional):
@@ -229,6 +281,7 @@ def run(spec, ctx):
                 alg = rng.choice((dns.tsig.HMAC_SHA256, dns.tsig.HMAC_SHA1, dns.tsig.HMAC_SHA512, dns.tsig.HMAC_SHA256_128, dns.tsig.HMAC_MD5))
                 key = dns.tsig.Key(kn, bytes(rng.randrange(256) for _ in range(16)), alg)
                 m.use_tsig(key)
+            info["flags0"] = int(m.flags)
             collide = GM.has_case_collision(m, extra=[key.name] if key else [])
             want_sets = want_rr_list(m, collide)
             # full and minimal sizes (reference points for TooBig legitimacy)
@@ -264,6 +317,10 @@ def run(spec, ctx):
             limits = sorted(x for x in limits if x >= 0)
             if i < 1:
                 ctx.sample({"info": info, "pad": pad, "tsig": key is not None, "full_len": full_len, "n_limits": len(limits), "rrs": len(want_sets[0])})
+            if True:
+                for L in rng.sample(limits, min(len(limits), 12)):
+                    if 12 <= L <= 65535:
+                        direct_renderer_drill(ctx, rng, m, L)
             for L in limits:
                 for prefer in (True, False):
                     if ctx.expired(1.0):
